@@ -3,7 +3,7 @@
    Models: C01/Model.v (vi_run, vi_run_g, pe_run, pe_run_g follow ValueIteration.hpp,
    PolicyEvaluation.hpp, MDP/Utils.hpp); spec: Base/Mdp.v (T_op, dp, T_pi, dp_pi, residual_le). *)
 From Coq Require Import List Arith QArith.
-From AIT Require Import Base.Qx Base.Mdp C01.Model C01.Spec C01.Proofs C01.ProofsVI C01.ProofsRepr C01.ProofsSpec C01.ProofsLP.
+From AIT Require Import Base.Qx Base.Mdp C01.Model C01.Spec C01.Proofs C01.ProofsVI C01.ProofsRepr C01.ProofsSpec C01.ProofsLP C01.ProofsPI C01.ProofsSparse.
 Import ListNotations.
 Local Open Scope Q_scope.
 
@@ -154,6 +154,31 @@ Theorem lp_post_spec : forall m values, (0 < nA m)%nat ->
 Proof. exact lp_post_spec_lemma. Qed.
 Print Assumptions lp_post_spec.
 
+(* ---- 6 (partial). PolicyIteration: if the (fuel-bounded) outer loop returns, the returned Q-table is
+   the Q-table of an evaluation of a policy matrix that greedification w.r.t. that Q-table leaves
+   unchanged (entrywise within 1e-6), and with a tolerance in use that evaluation's residual is at most
+   gamma * variation.
+   Full statement (not proved): additionally max_a Q is within gamma*tol + tie slack of its own Bellman
+   backup (checked at run time by the oracle clause pi_fixpoint), and the outer loop terminates. *)
+Theorem pi_fixpoint_partial : forall m h tol fuel n q,
+  pi_run m h tol fuel = Some (n, q) ->
+  exists pol vp,
+    let '(var, v, q') := pe_run m pol h tol vp in
+    q' = q /\ matrices_differ pol (greedy_matrix q) = false /\
+    (wf_mdp m -> wf_policy m pol -> epsS < tol -> (0 < h)%nat ->
+       0 <= var /\ close (gam m * var) v (T_pi m pol v)).
+Proof. exact pi_fixpoint_partial_lemma. Qed.
+Print Assumptions pi_fixpoint_partial.
+
+(* ---- 7 (sparse, separated case). When no probability and no expected reward lies in the band
+   (0, 1e-6] that SparseModel drops, the sparse representation returns equal results.
+   Full statement with an error term S*epsS*|V|/(1-gamma) for dropped entries: not proved. *)
+Theorem sparse_independent_partial : forall g h tol v0 pol, no_small_entries g ->
+  st_equiv (vi_run (sparse_of_g g) h tol v0) (vi_run (dense_of_g g) h tol v0) /\
+  pst_equiv (pe_run (sparse_of_g g) pol h tol v0) (pe_run (dense_of_g g) pol h tol v0).
+Proof. exact sparse_independent_lemma. Qed.
+Print Assumptions sparse_independent_partial.
+
 (* ---- O. the oracle's checkers are sound w.r.t. the spec *)
 Theorem check_mdp_solution_sound : forall m v q acts e d,
   check_mdp_solution m v q acts e d = true -> solution_spec m v q acts e d.
@@ -228,4 +253,25 @@ Proof. split; [apply residual_leb_sound; vm_compute; reflexivity| reflexivity]. 
 Example ex_fixpoint : bellman_fixpoint ex_m [18 # 7; 26 # 7].
 Proof.
   split; [reflexivity|]. constructor; [vm_compute; reflexivity|]. constructor; [vm_compute; reflexivity| constructor].
+Qed.
+
+(* PolicyIteration returns on ex_m (two evaluations of 20 sweeps, tolerance 1/100) *)
+Example ex_pi : exists q, pi_run ex_m 20 (1 # 100) 50 = Some (2%nat, q).
+Proof. eexists. vm_compute. reflexivity. Qed.
+
+(* ex_g has no entry in the dropped band *)
+Example ex_no_small : no_small_entries ex_g.
+Proof.
+  split.
+  - intros s a s1 Hs Ha Hs1. change (gS ex_g) with 2%nat in *. change (gA ex_g) with 2%nat in *.
+    assert (Es : s = 0%nat \/ s = 1%nat) by (destruct s as [|[|s]]; auto; exfalso; apply (Nat.nlt_0_r s); do 2 apply Nat.succ_lt_mono; exact Hs).
+    assert (Ea : a = 0%nat \/ a = 1%nat) by (destruct a as [|[|a]]; auto; exfalso; apply (Nat.nlt_0_r a); do 2 apply Nat.succ_lt_mono; exact Ha).
+    assert (Es1 : s1 = 0%nat \/ s1 = 1%nat) by (destruct s1 as [|[|s1]]; auto; exfalso; apply (Nat.nlt_0_r s1); do 2 apply Nat.succ_lt_mono; exact Hs1).
+    destruct Es as [-> | ->], Ea as [-> | ->], Es1 as [-> | ->]; unfold separated0; vm_compute;
+      ((left; reflexivity) || (right; reflexivity)).
+  - intros s a Hs Ha. change (gS ex_g) with 2%nat in *. change (gA ex_g) with 2%nat in *.
+    assert (Es : s = 0%nat \/ s = 1%nat) by (destruct s as [|[|s]]; auto; exfalso; apply (Nat.nlt_0_r s); do 2 apply Nat.succ_lt_mono; exact Hs).
+    assert (Ea : a = 0%nat \/ a = 1%nat) by (destruct a as [|[|a]]; auto; exfalso; apply (Nat.nlt_0_r a); do 2 apply Nat.succ_lt_mono; exact Ha).
+    destruct Es as [-> | ->], Ea as [-> | ->]; unfold separated0; vm_compute;
+      ((left; reflexivity) || (right; reflexivity)).
 Qed.
